@@ -383,6 +383,267 @@ theorem tInv_init (t R : Nat) (ht : 4 * R + 7 ≤ t) : TInv R (bsInit t) 0 :=
   ⟨0, false, by simp [ctlOf, bsInit, shape], by simp [rem, bsInit]; omega, by omega⟩
 
 
+/-! ### Progress: a held input word reaches `o` -/
+
+
+/-- Invariant with the ring phase made explicit. -/
+def BSInvP (s : BSState) (p : Fin 8) : Prop :=
+  ∃ v : Bool, ctlOf s = shape p v ∧ (3 ≤ p.val → s.ob1 = s.ibuf) ∧ (4 ≤ p.val → s.ob2 = s.ibuf)
+
+theorem bsInvP_init (t : Nat) : BSInvP (bsInit t) 0 :=
+  ⟨false, by simp [ctlOf, bsInit, shape], by simp [bsInit], by simp [bsInit]⟩
+
+/-- One instant: the phase follows `pstep`; `ibuffer` is loaded exactly at an i-edge in phase 7 and `o` exactly
+    at an o-edge in phase 4, with the (by then clean) content of `ibuffer`. -/
+theorem bsInvP_step (w t : Nat) (s : BSState) (p : Fin 8) (x : BSIn) (h : BSInvP s p) (hd : tmoDone s = false) :
+    BSInvP (bsStep w t s x) (pstep p x.ti x.tO x.mPing x.mPong).1 ∧
+    (bsStep w t s x).ibuf = (if x.ti = true ∧ p.val = 7 then x.i % 2 ^ w else s.ibuf) ∧
+    (bsStep w t s x).o = (if x.tO = true ∧ p.val = 4 then s.ibuf else s.o) := by
+  obtain ⟨v, hc, h3, h4⟩ := h
+  have hstep := ctlOf_step w t s x hd
+  rw [hc, cstep_shape] at hstep
+  have hpong : pongOut s = decide (p.val = 7) := by
+    have := shape_pong p v; rw [← hc] at this; exact this
+  have hpingO : s.pingO = decide (p.val = 4) := by
+    have := shape_pingO p v; rw [← hc] at this; exact this
+  refine ⟨?_, ?_, ?_⟩
+  · -- redo the data part for the explicit next phase
+    have e_ibuf : (bsStep w t s x).ibuf = if x.ti then (if pongOut s then x.i % 2 ^ w else s.ibuf) else s.ibuf := rfl
+    have e_ob1 : (bsStep w t s x).ob1 =
+        if x.tO then (if x.ti then mix x.mBuf s.ibuf (ibufN w s x.i) else s.ibuf) else s.ob1 := rfl
+    have e_ob2 : (bsStep w t s x).ob2 = if x.tO then s.ob1 else s.ob2 := rfl
+    have stable : ¬ (x.ti = true ∧ p.val = 7) →
+        (bsStep w t s x).ibuf = s.ibuf ∧ (x.tO = true → (bsStep w t s x).ob1 = s.ibuf) := by
+      intro hn
+      have hN : x.ti = true → ibufN w s x.i = s.ibuf := by
+        intro hti
+        have : ¬ p.val = 7 := fun h7 => hn ⟨hti, h7⟩
+        simp [ibufN, hpong, this]
+      constructor
+      · rw [e_ibuf]
+        cases hti : x.ti
+        · simp
+        · have := hN hti; simp only [ibufN] at this; simp [this]
+      · intro hto
+        rw [e_ob1, hto]
+        cases hti : x.ti
+        · simp
+        · simp [hN hti, mix_same]
+    refine ⟨_, hstep, ?_, ?_⟩
+    · intro hp'
+      obtain ⟨g1, _, g3⟩ := pstep_ge3 p x.ti x.tO x.mPing x.mPong hp'
+      obtain ⟨s1, s2⟩ := stable g1
+      rw [s1]
+      cases hto : x.tO
+      · rw [e_ob1, hto]
+        rcases g3 with g | g
+        · rw [hto] at g; exact absurd g (by simp)
+        · simpa using h3 g
+      · exact s2 hto
+    · intro hp'
+      obtain ⟨g1, _, _⟩ := pstep_ge3 p x.ti x.tO x.mPing x.mPong (by omega)
+      obtain ⟨s1, _⟩ := stable g1
+      rw [s1, e_ob2]
+      rcases pstep_ge4 p x.ti x.tO x.mPing x.mPong hp' with ⟨g, g'⟩ | ⟨g, g'⟩
+      · simpa [g] using h3 g'
+      · simpa [g] using h4 g'
+  · show (if x.ti then (if pongOut s then x.i % 2 ^ w else s.ibuf) else s.ibuf) = _
+    rw [hpong]
+    cases x.ti <;> by_cases h7 : p.val = 7 <;> simp [h7]
+  · show (if x.tO then (if s.pingO then s.ob2 else s.o) else s.o) = _
+    rw [hpingO]
+    cases x.tO <;> by_cases h4' : p.val = 4 <;> simp [h4']
+    exact h4 (by omega)
+
+
+/-- Goal progress while `i` is held at `v`: 0 = nothing yet, 1 = `ibuffer` has been (re)loaded with `v`,
+    2 = `o` has been loaded from it. -/
+def gstep (p : Fin 8) (G : Fin 3) (ti tO : Bool) : Fin 3 :=
+  if ti && p.val == 7 then (if G.val == 0 then 1 else G)
+  else if tO && p.val == 4 && G.val != 0 then 2 else G
+
+/-- Number of ring advances still needed until `o` shows the held word. -/
+def todo (p : Fin 8) (G : Fin 3) : Nat :=
+  match G.val with
+  | 2 => 0
+  | 1 => 5 - p.val
+  | _ => if p.val == 0 then 12 else (8 - p.val) + 4
+
+/-- Does the next ring advance wait for an i-clock edge (else: for an o-clock edge)? -/
+def needsI (p : Fin 8) : Bool := p.val == 0 || p.val == 5 || p.val == 6 || p.val == 7
+
+/-- Reachable combinations: after the reload and before the output the phase is 1..4. -/
+def GOk (p : Fin 8) (G : Fin 3) : Bool := G.val != 1 || (1 ≤ p.val && p.val ≤ 4)
+
+theorem todo_step : ∀ (p : Fin 8) (G : Fin 3) (ti tO mp mq : Bool), GOk p G = true →
+    let p' := (pstep p ti tO mp mq).1
+    let G' := gstep p G ti tO
+    GOk p' G' = true ∧ todo p' G' ≤ todo p G ∧
+    ((needsI p = true ∧ ti = true) ∨ (needsI p = false ∧ tO = true) → todo p' G' + 1 ≤ todo p G ∨ todo p' G' = 0) ∧
+    (¬ ((needsI p = true ∧ ti = true) ∨ (needsI p = false ∧ tO = true)) → p' = p ∧ G' = G) := by
+  decide
+
+
+theorem todo_zero : ∀ (p : Fin 8) (G : Fin 3), GOk p G = true → todo p G = 0 → G = 2 := by decide
+theorem todo_le : ∀ (p : Fin 8) (G : Fin 3), todo p G ≤ 12 := by decide
+
+/-- Abstract run of (phase, goal progress) along a schedule. -/
+def arun : Fin 8 × Fin 3 → List BSIn → Fin 8 × Fin 3
+  | a, [] => a
+  | a, x :: xs => arun ((pstep a.1 x.ti x.tO x.mPing x.mPong).1, gstep a.1 a.2 x.ti x.tO) xs
+
+theorem arun_append (x y : List BSIn) : ∀ a, arun a (x ++ y) = arun (arun a x) y := by
+  induction x with
+  | nil => intro a; rfl
+  | cons e es ih => intro a; simp [arun, ih]
+
+/-- A block in which both clocks have at least one edge advances the ring. -/
+theorem block_progress (blk : List BSIn) : ∀ a : Fin 8 × Fin 3, GOk a.1 a.2 = true →
+    GOk (arun a blk).1 (arun a blk).2 = true ∧ todo (arun a blk).1 (arun a blk).2 ≤ todo a.1 a.2 ∧
+    ((needsI a.1 = true → 1 ≤ bsITicks blk) ∧ (needsI a.1 = false → 1 ≤ bsOTicks blk) →
+      todo (arun a blk).1 (arun a blk).2 + 1 ≤ todo a.1 a.2 ∨ todo (arun a blk).1 (arun a blk).2 = 0) := by
+  induction blk with
+  | nil =>
+    intro a ha
+    refine ⟨ha, le_refl _, fun h => ?_⟩
+    simp only [bsITicks, bsOTicks] at h
+    cases hn : needsI a.1
+    · have := h.2 hn; omega
+    · have := h.1 hn; omega
+  | cons x xs ih =>
+    intro a ha
+    obtain ⟨t1, t2, t3, t4⟩ := todo_step a.1 a.2 x.ti x.tO x.mPing x.mPong ha
+    obtain ⟨i1, i2, i3⟩ := ih ((pstep a.1 x.ti x.tO x.mPing x.mPong).1, gstep a.1 a.2 x.ti x.tO) t1
+    dsimp only at i1 i2 i3
+    simp only [arun]
+    refine ⟨i1, le_trans i2 t2, fun h => ?_⟩
+    by_cases hr : (needsI a.1 = true ∧ x.ti = true) ∨ (needsI a.1 = false ∧ x.tO = true)
+    · rcases t3 hr with h' | h'
+      · left; omega
+      · right; omega
+    · obtain ⟨e1, e2⟩ := t4 hr
+      simp only [e1, e2] at i3 ⊢
+      apply i3
+      constructor
+      · intro hn
+        have := h.1 hn
+        have hti : x.ti = false := by
+          cases hti : x.ti
+          · rfl
+          · exact absurd (Or.inl ⟨hn, hti⟩) hr
+        simpa [bsITicks, hti] using this
+      · intro hn
+        have := h.2 hn
+        have hto : x.tO = false := by
+          cases hto : x.tO
+          · rfl
+          · exact absurd (Or.inr ⟨hn, hto⟩) hr
+        simpa [bsOTicks, hto] using this
+
+theorem blocks_progress (blocks : List (List BSIn)) : ∀ a : Fin 8 × Fin 3, GOk a.1 a.2 = true →
+    (∀ blk ∈ blocks, 1 ≤ bsITicks blk ∧ 1 ≤ bsOTicks blk) →
+    GOk (arun a blocks.flatten).1 (arun a blocks.flatten).2 = true ∧
+    (todo (arun a blocks.flatten).1 (arun a blocks.flatten).2 + blocks.length ≤ todo a.1 a.2 ∨
+      todo (arun a blocks.flatten).1 (arun a blocks.flatten).2 = 0) := by
+  induction blocks with
+  | nil => intro a ha _; exact ⟨ha, Or.inl (by simp [arun])⟩
+  | cons blk rest ih =>
+    intro a ha hb
+    obtain ⟨b1, b2, b3⟩ := block_progress blk a ha
+    have hblk := hb blk (by simp)
+    obtain ⟨r1, r2⟩ := ih (arun a blk) b1 (fun c hc => hb c (by simp [hc]))
+    simp only [List.flatten_cons, arun_append, List.length_cons]
+    refine ⟨r1, ?_⟩
+    rcases b3 ⟨fun _ => hblk.1, fun _ => hblk.2⟩ with h | h
+    · rcases r2 with r | r
+      · left; omega
+      · right; exact r
+    · rcases r2 with r | r
+      · right; omega
+      · right; exact r
+
+/-! ### Connecting the abstract run with the registers -/
+
+def DG (v : Nat) (s : BSState) (G : Fin 3) : Prop := (1 ≤ G.val → s.ibuf = v) ∧ (G.val = 2 → s.o = v)
+
+theorem dg_step (w t v : Nat) (s : BSState) (p : Fin 8) (G : Fin 3) (x : BSIn) (h : BSInvP s p)
+    (hd : tmoDone s = false) (hg : DG v s G) (hx : x.i % 2 ^ w = v) :
+    DG v (bsStep w t s x) (gstep p G x.ti x.tO) := by
+  obtain ⟨_, e1, e2⟩ := bsInvP_step w t s p x h hd
+  obtain ⟨g1, g2⟩ := hg
+  unfold DG
+  rw [e1, e2]
+  by_cases c7 : x.ti = true ∧ p.val = 7
+  · have hne : ¬ (x.tO = true ∧ p.val = 4) := by intro hc; omega
+    have hG : gstep p G x.ti x.tO = if G.val = 0 then 1 else G := by
+      simp [gstep, c7.1, c7.2]
+    rw [hG, if_pos c7, if_neg hne, hx]
+    by_cases h0 : G.val = 0
+    · simp [h0]
+    · simp only [h0, if_false]
+      exact ⟨fun _ => trivial, g2⟩
+  · rw [if_neg c7]
+    by_cases c4 : x.tO = true ∧ p.val = 4
+    · rw [if_pos c4]
+      by_cases h0 : G.val = 0
+      · have hG : gstep p G x.ti x.tO = G := by
+          have : ¬ (x.ti = true ∧ p.val = 7) := c7
+          simp only [gstep]
+          rw [if_neg (by simpa using this)]
+          simp [h0]
+        rw [hG]
+        exact ⟨fun h1 => by omega, fun h2 => by omega⟩
+      · have hG : gstep p G x.ti x.tO = 2 := by
+          simp only [gstep]
+          rw [if_neg (by simpa using c7)]
+          simp [c4.1, c4.2, h0]
+        rw [hG]
+        have := g1 (by omega)
+        exact ⟨fun _ => this, fun _ => this⟩
+    · rw [if_neg c4]
+      have hG : gstep p G x.ti x.tO = G := by
+        simp only [gstep]
+        rw [if_neg (by simpa using c7)]
+        have : ¬ (x.tO = true ∧ p.val = 4) := c4
+        rw [if_neg (by simp; intro h1 h2; exact absurd ⟨h1, h2⟩ this)]
+      rw [hG]
+      exact ⟨g1, g2⟩
+
+theorem bsRun_append (w t : Nat) (x y : List BSIn) : ∀ s, bsRun w t s (x ++ y) = bsRun w t (bsRun w t s x) y := by
+  induction x with
+  | nil => intro s; rfl
+  | cons e es ih => intro s; simp [bsRun, ih]
+
+theorem noTimeout_append (w t : Nat) (x y : List BSIn) : ∀ s, NoTimeout w t s (x ++ y) →
+    NoTimeout w t s x ∧ NoTimeout w t (bsRun w t s x) y := by
+  induction x with
+  | nil => intro s h; exact ⟨trivial, h⟩
+  | cons e es ih =>
+    intro s h
+    obtain ⟨h1, h2⟩ := h
+    obtain ⟨i1, i2⟩ := ih _ h2
+    exact ⟨⟨h1, i1⟩, i2⟩
+
+theorem invP_run (w t : Nat) (xs : List BSIn) : ∀ (s : BSState) (p : Fin 8), BSInvP s p → NoTimeout w t s xs →
+    ∃ p', BSInvP (bsRun w t s xs) p' := by
+  induction xs with
+  | nil => intro s p h _; exact ⟨p, h⟩
+  | cons x xs ih =>
+    intro s p h hn
+    exact ih _ _ (bsInvP_step w t s p x h hn.1).1 hn.2
+
+theorem dg_run (w t v : Nat) (xs : List BSIn) : ∀ (s : BSState) (p : Fin 8) (G : Fin 3), BSInvP s p → DG v s G →
+    NoTimeout w t s xs → (∀ e ∈ xs, e.i % 2 ^ w = v) →
+    BSInvP (bsRun w t s xs) (arun (p, G) xs).1 ∧ DG v (bsRun w t s xs) (arun (p, G) xs).2 := by
+  induction xs with
+  | nil => intro s p G h hg _ _; exact ⟨h, hg⟩
+  | cons x xs ih =>
+    intro s p G h hg hn hv
+    simp only [bsRun, arun]
+    exact ih _ _ _ (bsInvP_step w t s p x h hn.1).1 (dg_step w t v s p G x h hn.1 hg (hv x (by simp))) hn.2
+      (fun e he => hv e (by simp [he]))
+
+
 /-! Both schedule predicates are decidable (used by the concrete examples). -/
 
 def decNoTimeout (w t : Nat) : (s : BSState) → (xs : List BSIn) → Decidable (NoTimeout w t s xs)
